@@ -24,7 +24,7 @@ SPEC = dict(
                  "such a line cannot be shown verbatim by any diff printed through click"],
     required=["dry_ok_and_applied", "multi_file_diffs", "engine:v1", "engine:v2", "dry_failed_nothing_changed",
               "commit_on_runs", "unaffected_file_cases", "fault_cases", "message_template_cases",
-              "fetch_brings_newer_tag_cases"],
+              "fetch_brings_newer_tag_cases", "dirty_tree_cases"],
     anchors=[("cli", "_print_diff"), ("v2rewrite", "diff"), ("v1rewrite", "diff"), ("rewrite", "diff_lines"),
              ("v2rewrite", "rewrite_files")],
 )
@@ -113,7 +113,7 @@ def cases(ctx):
     n = ctx.size(1600, 40000)
     for i in range(n):
         yield {"pseed": ctx.rng.getrandbits(48), "legacy": i % 5 == 4, "commit": i % 4 == 0, "unicode": i % 3 == 0,
-               "random_flags": i % 6 == 5, "fault": i % 7 == 3, "fetch": i % 8 == 4}
+               "random_flags": i % 6 == 5, "fault": i % 7 == 3, "fetch": i % 8 == 4, "dirty": i % 12 == 8}
     # files whose patterns do not depend on the part that changes (a `series MAJOR.x` line during a --patch bump),
     # intact and with the occurrence destroyed: dry and real run must agree there too
     k = 0
@@ -252,6 +252,10 @@ def run_case(ctx, case):
             fake.set_out("status", "")
             env = fake.env
             ctx.count("commit_on_runs")
+            if case.get("dirty"):
+                # an unrelated tracked file has a local modification (no --allow-dirty): "the same arguments"
+                fake.set_out("status", " M unrelated-notes.txt\n")
+                ctx.count("dirty_tree_cases")
             if case.get("fetch") and not case["legacy"] and not case["random_flags"] and not case.get("fault"):
                 # a remote whose fetch brings a newer version tag: "the same arguments" include the implicit fetch,
                 # so the dry run has to start from the same (fetched) version as the real run
@@ -299,7 +303,13 @@ def run_case(ctx, case):
             return
         res = harness.invoke(args, cwd=d, env=env)
         if res.exit_code != 0:
-            ctx.violation("other:real_run_fails_after_clean_dry_run", f"{args}: dry exit 0, real exit {res.exit_code}: "
+            cls = "other:real_run_fails_after_clean_dry_run"
+            if case.get("dirty") and any("working directory is not clean" in e for e in res.errors()) and \
+                    harness.snapshot(d, meta=True) == before:
+                # known mechanism, verified: the only difference to the clean-tree cases is the status output, the
+                # real run refused because of it (changing nothing) and --dry had not looked at it
+                cls = "dirty_tree_checked_only_by_real_run"
+            ctx.violation(cls, f"{args}: dry exit 0, real exit {res.exit_code}: "
                           f"{res.errors()[-3:]} {res.crash or ''}", observed=desc)
             return
         after = harness.snapshot(d)
